@@ -94,6 +94,7 @@ def run(ctx, chk):
         chk.ob("C16.phases", f"{meth} (after the vulnerability phase) stores into no host "
                "configuration and no definition table", not bad, "; ".join(bad), f2.module.path)
     check_coverage(ctx, chk)
+    check_patching(ctx, chk)
     check_own_config(ctx, chk)
     check_os_choices(ctx, chk)
     check_firewall(ctx, chk)
@@ -198,6 +199,93 @@ def check_coverage(ctx, chk):
                       f_or([A(f"None is {d}['os']"), A(f"{h}.os[{d}['os']]")])])
         chk.ob("C16.coverage", f"{meth}: host runs the {key} and (definition OS is None or host "
                "runs it)", f_equiv(true_f, want), f_show(true_f)[:300], fi.module.path)
+
+
+def check_patching(ctx, chk):
+    """what "patch the host" does: the helpers that make a host vulnerable must really leave it
+    running the drawn definition's service / process (and OS), the definition must be drawn from
+    the ones that can apply, and the sensitive-host test must be membership in sensitive_hosts"""
+    G_ = f"{GEN_MOD}:ScenarioGenerator."
+    for meth, table, fld, hostattr in (
+            ("_update_host_exploit_vulnerability", "exploits", "service", "services"),
+            ("_update_host_privesc_vulnerability", "privescs", "process", "processes")):
+        what = f"{meth}: "
+        try:
+            fi, ip, s, cn = method_run(ctx, meth, no_inline=("_update_host_os",))
+        except Exception as e:       # anchor renamed: not decided
+            chk.undecided("C16.patch", what + "helper found", str(e)[:120])
+            continue
+        host, oc = fi.params[1], fi.params[2]
+        D = f"G.{table}[each(G.{table})]"
+        FILT = f"[{D} for each(G.{table}) if ({D}['os'] is None | {host}.os[{D}['os']])]"
+        ALL = f"list(G.{table}.values())"
+        draws = [ev for ev in s.events if ev.kind == "call"
+                 and ev.data["fname"] == "numpy.random.choice"]
+        if len(draws) != 1:
+            chk.undecided("C16.patch", what + "one definition is drawn from the applicable ones",
+                          f"{len(draws)} np.random.choice call(s); only the single-draw form is "
+                          "decoded", fi.module.path)
+            continue
+        pool = cn.show(draws[0].data["args"][0]) if draws[0].data["args"] else "?"
+        want_pool = (f"({oc} ? {FILT} : {ALL})", f"({oc} ? {FILT} : list(G.{table}))")
+        chk.ob("C16.patch", what + "the definition is drawn from all definitions, or - when the "
+               "host's OS must be kept - from those whose OS is None or the host's",
+               pool in want_pool, f"pool {pool[:300]}", draws[0].loc)
+        DR = cn.show(draws[0].data["result"])
+        sts = [ev for ev in s.events if ev.kind == "store" and ev.data["target"] == "sub"
+               and cn.show(ev.data["base"]) == f"{host}.{hostattr}"]
+        ok = len(sts) == 1 and cn.show(sts[0].data["idx"]) == f"{DR}['{fld}']" \
+            and sts[0].data["value"] in (C(True), C(1)) \
+            and not [c for c in sts[0].pc if c[0] not in ("fact",)] \
+            and sts[0].seq > draws[0].seq
+        chk.ob("C16.patch", what + f"the host is left running the drawn definition's {fld} "
+               f"({host}.{hostattr}[drawn['{fld}']] := True, unconditionally)", ok,
+               str([(cn.show(e.data['idx'])[:80], cn.show(e.data['value'])) for e in sts]),
+               fi.module.path)
+        osc = [ev for ev in s.events if ev.kind == "call"
+               and ev.data["fname"] == G_ + "_update_host_os"]
+        ok = len(osc) == 1
+        detail = f"{len(osc)} _update_host_os call(s)"
+        if ok:
+            F = cn.conj(tuple(c for c in osc[0].pc if c[0] not in ("fact", "inloop")))
+            want = f_and([f_not(A(f"None is {DR}['os']")), f_not(A(oc))])
+            args = [cn.show(a) for a in osc[0].data["args"]]
+            ok = f_equiv(F, want) and args[-2:] == [host, f"{DR}['os']"]
+            detail = f"_update_host_os({', '.join(a[:60] for a in args)}) under {f_show(F)[:200]}"
+        chk.ob("C16.patch", what + "unless the OS must be kept, the host is switched to the drawn "
+               "definition's OS when it names one", ok, detail, fi.module.path)
+        rets = {(f_show(cn.conj(tuple(c for c in pc if c[0] != "fact"))), cn.show(t))
+                for pc, t in s.returns}
+        succ = [r for r in rets if r[1] == f"(True, {DR})"]
+        chk.ob("C16.patch", what + "reports success together with the drawn definition",
+               len(succ) == 1 and all(r[1] in (f"(True, {DR})", "(False, None)") for r in rets),
+               str(sorted(rets))[:300], fi.module.path, nontrivial=False)
+    # _update_host_os: exactly the given OS afterwards
+    try:
+        fi, ip, s, cn = method_run(ctx, "_update_host_os")
+        host, osn = fi.params[1], fi.params[2]
+        sts = [ev for ev in s.events if ev.kind == "store" and ev.data["target"] == "sub"
+               and cn.show(ev.data["base"]) == f"{host}.os"]
+        clear = [ev for ev in sts if ev.data["value"] in (C(False), C(0))
+                 and cn.show(ev.data["idx"]) == f"each({host}.os)"
+                 and not [c for c in ev.pc if c[0] not in ("fact", "inloop")]]
+        setv = [ev for ev in sts if ev.data["value"] in (C(True), C(1))
+                and cn.show(ev.data["idx"]) == osn
+                and not [c for c in ev.pc if c[0] != "fact"]]
+        ok = len(clear) == 1 and len(setv) == 1 and len(sts) == 2 and clear[0].seq < setv[0].seq
+        chk.ob("C16.patch", "_update_host_os: every OS flag is cleared, then exactly the given OS is "
+               "set (the host keeps exactly one OS)", ok,
+               str([(cn.show(e.data['idx']), cn.show(e.data['value'])) for e in sts]),
+               fi.module.path)
+    except Exception as e:
+        chk.undecided("C16.patch", "_update_host_os: helper found", str(e)[:120])
+    try:
+        fi, ip, s, cn = method_run(ctx, "_is_sensitive_host")
+        txt = [cn.show(t) for _, t in s.returns]
+        chk.ob("C16.patch", "_is_sensitive_host(addr) = addr in sensitive_hosts",
+               txt == [f"{fi.params[1]} in G.sensitive_hosts"], str(txt), fi.module.path)
+    except Exception as e:
+        chk.undecided("C16.patch", "_is_sensitive_host: helper found", str(e)[:120])
 
 
 def check_own_config(ctx, chk):
